@@ -1,1 +1,140 @@
-"""placeholder"""
+"""C14 - reader position survives crashes: the head file changes only by an atomic rename of a closed temp file, restore validates."""
+
+from __future__ import annotations
+
+import ast
+import re
+
+from . import rule
+from ..model import Unresolved, walk_scope, parent, enclosing_function, qualname
+from ..paths import U, Path, Evaluator
+from .. import q
+from .c13 import fn_paths, RL, cls_of
+
+WRITE_MODES = re.compile(r"[wax+]")
+
+
+def open_events(p: Path):
+    out = []
+    for e in p.events:
+        if e.kind == 'call' and e.term == 'open' and e.args:
+            mode = e.args[1] if len(e.args) > 1 else dict(e.kwargs).get('mode', "'r'")
+            out.append((e, e.args[0], mode.strip('\'"')))
+    return out
+
+
+@rule('C14.R1', 'who writes the head: the only open() with a writing mode on a path derived from self.head targets a different path (head + ".tmp"); the head itself is only opened for reading')
+def r1(rr, repo):
+    mod, cls = cls_of(repo)
+    n = 0
+    for f in [x for x in cls.body if isinstance(x, ast.FunctionDef)]:
+        if not any(isinstance(c, ast.Call) and U(c.func) == 'open' for c in ast.walk(f)):
+            continue
+        _, fn, paths = fn_paths(repo, f.name, unroll_for=1) if f.name not in ('read', 'seek') else (mod, f, [])
+        if f.name in ('read', 'seek'):
+            # opens of log files for reading: check syntactically that the mode is 'rb'
+            for c in q.name_calls(f, 'open'):
+                m = U(c.args[1]) if len(c.args) > 1 else "'r'"
+                rr.ob(f'{f.name}: log files are opened read-only', not WRITE_MODES.search(m.strip('\'"')), mod, c, key=f'ro-open|{f.name}')
+            continue
+        rr.paths += len(paths)
+        for p in paths:
+            for e, path, mode in open_events(p):
+                if 'self.head' in path or path == 'head':
+                    n += 1
+                    writing = bool(WRITE_MODES.search(mode))
+                    is_head_itself = path in ('self.head', 'head')
+                    if is_head_itself:
+                        rr.ob('the head file itself is never opened for writing', not writing, mod, e.node, witness=f'open({path}, {mode!r})', key=f'head-open|{f.name}|{writing}')
+                    else:
+                        ok = writing and re.fullmatch(r"self\.head \+ '[^']+'", path) is not None
+                        rr.ob('writes go to a sibling temp path (head + suffix)', ok, mod, e.node, witness=f'open({path}, {mode!r})', key=f'tmp-open|{f.name}')
+    rr.floor('open() calls on head-derived paths', n, 2, mod, cls)
+    # nobody else touches the head path with a mutating os call
+    for c in q.calls_in(cls):
+        t = U(c.func)
+        if t in ('os.remove', 'os.unlink', 'os.truncate', 'shutil.copy', 'shutil.move', 'os.replace', 'os.rename') and any('head' in U(a) for a in c.args):
+            fn = enclosing_function(c)
+            rr.ob('the head path is only touched by the rename in write_head', fn.name == 'write_head' and t in ('os.rename', 'os.replace'), mod, c, key=f'head-touch|{t}|{fn.name}')
+
+
+@rule('C14.R2', 'ordering in write_head: the temp file is written and closed before os.rename(tmp, head); nothing else happens to head in between')
+def r2(rr, repo):
+    mod, fn, paths = fn_paths(repo, 'write_head')
+    rr.paths += len(paths)
+    n = 0
+    for p in paths:
+        if p.facts.get('isnone(self.head)') is not False:
+            continue
+        rn = [e for e in p.events if e.kind == 'call' and e.term in ('os.rename', 'os.replace')]
+        if not rn:
+            if p.outcome is None or p.outcome[0] == 'return':
+                rr.violated('a save path that never renames the temp file over the head (position is lost or the head is written in place)', mod, fn, witness=p.pc_text(), key='no-rename')
+            continue
+        n += 1
+        r = rn[0]
+        opens = [e for e in p.events if e.kind == 'call' and e.term == 'open']
+        exits = [e for e in p.events if e.kind == 'with_exit']
+        writes = [e for e in p.events if e.kind == 'call' and e.term.endswith('.write')]
+        ok_args = len(r.args) == 2 and r.args[1] == 'self.head' and opens and r.args[0] == opens[0].args[0]
+        rr.ob('rename(src=the path that was written, dst=the head path)', bool(ok_args), mod, r.node, witness=str(r.args), key='rename-args')
+        with_for_open = [e for e in p.events if e.kind == 'with' and 'open(' in e.term]
+        closed_before = bool(with_for_open) and any(x.node is with_for_open[0].stmt for x in exits if p.events.index(x) < p.events.index(r))
+        rr.ob('the temp file is closed (its with-block has ended) before the rename', closed_before, mod, r.node, witness=' -> '.join(repr(e)[:40] for e in p.events if e.kind in ('with', 'with_exit', 'call'))[:300], key='closed-before-rename')
+        rr.ob('the position is written before the rename', bool(writes) and p.events.index(writes[0]) < p.events.index(r), mod, r.node, key='write-before-rename')
+        between = [e for e in p.events[p.events.index(opens[0]) + 1:p.events.index(r)] if e.kind == 'call' and any('self.head' == a for a in e.args)]
+        rr.ob('nothing else is done to the head path between opening the temp file and the rename', not between, mod, r.node, key='nothing-between')
+    rr.floor('saving paths of write_head', n, 1, mod, fn)
+
+
+@rule('C14.R3', 'restore never trusts a malformed file: __init__ reads only the head (never the temp), validates [str, int] and raises otherwise; a missing head means start')
+def r3(rr, repo):
+    mod, fn, paths = fn_paths(repo, '__init__')
+    rr.paths += len(paths)
+    n = m = 0
+    for p in paths:
+        seeks = [e for e in p.events if e.kind == 'call' and e.term == 'self.seek']
+        for e, path, mode in open_events(p):
+            rr.ob('__init__ opens only the head file, read-only', path in ('head', 'self.head') and not WRITE_MODES.search(mode), mod, e.node, witness=f'open({path}, {mode!r})', key='init-open')
+        for s in seeks:
+            arg = s.args[0]
+            if 'json_loads' in arg or 'json.loads' in arg:
+                n += 1
+                f = p.facts
+                checks = [f.get(f'truthy(isinstance({arg}, list))'), f.get(f'eq(2, len({arg}))') if f.get(f'eq(2, len({arg}))') is not None else f.get(f'eq(len({arg}), 2)'),
+                          f.get(f'truthy(isinstance({arg}[0], str))'), f.get(f'truthy(isinstance({arg}[1], int))')]
+                rr.ob('a position read from the head file is used only after it validated as [str, int]', all(c is True for c in checks), mod, s.node, witness=p.pc_text()[-300:], key='validated')
+            else:
+                m += 1
+                rr.ob("without a head file the reader starts from ('start', 0)", arg.replace('"', "'") == "('start', 0)", mod, s.node, witness=arg, key='missing-start')
+        bad = [k for k, v in p.facts.items() if k.startswith('truthy(isinstance(') and 'json_loads' in k and v is False]
+        if bad:
+            rr.ob('a malformed head file raises instead of being used', p.outcome is not None and p.outcome[0] == 'raise' and not seeks, mod, fn, witness=p.pc_text()[-200:], key='malformed-raises')
+    rr.floor('restore paths that seek to a saved position', n, 1, mod, fn)
+    rr.floor('restore paths without a head file', m, 1, mod, fn)
+
+
+@rule('C14.R4', "the saved position is the reader's own: write_head() without argument takes self.tell() under the lock; close() saves before it closes the files")
+def r4(rr, repo):
+    mod, fn, paths = fn_paths(repo, 'write_head')
+    n = 0
+    param = q.func_params(fn)[1]
+    for p in paths:
+        if p.facts.get('isnone(self.head)') is not False or p.facts.get(f'isnone({param})') is not True:
+            continue
+        n += 1
+        tell = [e for e in p.events if e.kind == 'call' and e.term == 'self.tell']
+        lock = [e for e in p.events if e.kind == 'with' and e.term == 'self.lock']
+        writes = [e for e in p.events if e.kind == 'call' and e.term.endswith('.write')]
+        ok = bool(tell) and bool(lock) and p.events.index(lock[0]) < p.events.index(tell[0])
+        rr.ob('the position saved by default is self.tell(), read under the lock', ok, mod, fn, witness=p.pc_text(), key='tell-under-lock')
+        if writes and tell:
+            rr.ob('what is written is that position', 'self.tell()' in writes[0].args[0], mod, writes[0].node, witness=writes[0].args[0][:100], key='writes-tell')
+    rr.floor('default-position paths of write_head', n, 1, mod, fn)
+    cmod, cfn, cpaths = fn_paths(repo, 'close')
+    for p in cpaths:
+        wh = [e for e in p.events if e.kind == 'call' and e.term == 'self.write_head']
+        closes = [e for e in p.events if e.kind == 'call' and e.term.endswith('.close')]
+        st = [e for e in p.events if e.kind == 'store' and e.term == 'self.read_file']
+        ok = bool(wh) and all(p.events.index(wh[0]) < p.events.index(x) for x in closes + st)
+        rr.ob('close() saves the position before closing / invalidating the reader', ok, cmod, cfn, witness=' '.join(e.term for e in p.events if e.kind == 'call')[:200], key='close-saves-first')
